@@ -53,6 +53,14 @@ def make_case(rng, i, tier):
         case["k"] = rng.randint(1, 8)
     else:
         case["ch"] = rng.randrange(0, 16)
+        if case["prefix"] and rng.random() < 0.5:
+            # the same assignment twice with appended material in between
+            case["prefix"] = [{"op": "set_channel", "c": case["ch"]},
+                              {"op": "concat_copy", "notes": [[rng.choice([0, 1]), 70 + j, 6 * j, 12, 30 + j] for j in range(rng.randint(1, 3))]}]
+    if op == "pad" and case["prefix"] and rng.random() < 0.4:
+        case["prefix"] = [{"op": "pad", "n": case["n"]}, {"op": "concat_copy", "notes": [[0, 71, 0, 12, 33]]}]
+    if op == "scale" and case["prefix"] and rng.random() < 0.4:
+        case["prefix"] = [{"op": "scale", "k": case["k"]}, {"op": "concat_copy", "notes": [[0, 71, 0, 12, 33]]}]
     return case
 
 
